@@ -62,3 +62,89 @@ MUTANTS += [
     {"id": "C10-orig-cell-layout-glyph-width", "prop": "C10", "expect": "TOTAL",
      "edits": [("src/render.rs", "        if cursor.col.saturating_add(cell_size.width) <= max_width {", "        if cursor.col + cell_size.width <= max_width {")]},
 ]
+
+# ---- behaviour-preserving refactorings the rules must see through (robustness round) ----
+C = "src/view/container.rs"
+_CS = ("            height: if self.size.height == 0 {\n                ct.max().height\n            } else {\n                self.size.height.clamp(ct.min().height, ct.max().height)\n            },\n"
+       "            width: if self.size.width == 0 {\n                ct.max().width\n            } else {\n                self.size.width.clamp(ct.min().width, ct.max().width)\n            },\n")
+_JSON_DOC = "/// Construct [Container] object from JSON value\n"
+_HELPER = ("/// Extent of the container along one axis\nfn resolve_extent(requested: usize, min: usize, max: usize) -> usize {\n    match requested {\n        0 => max,\n        _ => requested.clamp(min, max),\n    }\n}\n\n")
+_FIND = ("            if child.pos.col <= self.pos.col\n                && self.pos.col < child.pos.col + child.size.width\n                && child.pos.row <= self.pos.row\n"
+         "                && self.pos.row < child.pos.row + child.size.height\n            {")
+
+MUTANTS += [
+    # per-axis size computed by a private helper called twice
+    {"id": "C10-benign-container-extent-helper", "prop": "C10", "benign": True,
+     "edits": [(C, _CS, "            height: resolve_extent(self.size.height, ct.min().height, ct.max().height),\n            width: resolve_extent(self.size.width, ct.min().width, ct.max().width),\n"),
+               (C, _JSON_DOC, _HELPER + _JSON_DOC)]},
+    {"id": "C10-container-extent-helper-wrong-axis", "prop": "C10", "expect": "CLAMP-CONTRACT",
+     "edits": [(C, _CS, "            height: resolve_extent(self.size.height, ct.min().height, ct.max().width),\n            width: resolve_extent(self.size.width, ct.min().width, ct.max().width),\n"),
+               (C, _JSON_DOC, _HELPER + _JSON_DOC)]},
+    {"id": "C10-container-extent-helper-unclamped", "prop": "C10", "expect": "CLAMP-CONTRACT",
+     "edits": [(C, _CS, "            height: resolve_extent(self.size.height, ct.min().height, ct.max().height),\n            width: resolve_extent(self.size.width, ct.min().width, ct.max().width),\n"),
+               (C, _JSON_DOC, _HELPER.replace("_ => requested.clamp(min, max)", "_ => requested.max(min)") + _JSON_DOC)]},
+    # clamp(lo, hi) <-> max(lo).min(hi); hoisted bounds; match instead of if
+    {"id": "C10-benign-container-max-min", "prop": "C10", "benign": True,
+     "edits": [(C, "                .saturating_add(self.margins.top)\n                .saturating_add(self.margins.bottom)\n                .clamp(ct.min.height, ct.max.height)", "                .saturating_add(self.margins.top)\n                .saturating_add(self.margins.bottom)\n                .max(ct.min.height)\n                .min(ct.max.height)")]},
+    {"id": "C10-container-max-only", "prop": "C10", "expect": "CLAMP-CONTRACT",
+     "edits": [(C, "                .saturating_add(self.margins.top)\n                .saturating_add(self.margins.bottom)\n                .clamp(ct.min.height, ct.max.height)", "                .saturating_add(self.margins.top)\n                .saturating_add(self.margins.bottom)\n                .max(ct.min.height)")]},
+    {"id": "C10-benign-container-hoisted-match", "prop": "C10", "benign": True,
+     "edits": [(C, _CS, "            height: match self.size.height {\n                0 => ct.max().height,\n                height => {\n                    let (lo, hi) = (ct.min().height, ct.max().height);\n                    height.clamp(lo, hi)\n                }\n            },\n"
+                       "            width: if self.size.width != 0 {\n                self.size.width.clamp(ct.min().width, ct.max().width)\n            } else {\n                ct.max().width\n            },\n")]},
+    # flex share: locals renamed
+    {"id": "C10-benign-flex-renamed-counters", "prop": "C10", "benign": True,
+     "edits": [("src/view/flex.rs", "    let mut flex_total = 0.0;", "    let mut weights = 0.0;"),
+               ("src/view/flex.rs", "            Some(flex) => flex_total += flex,", "            Some(flex) => weights += flex,"),
+               ("src/view/flex.rs", "    let mut major_remain = direction.major(ct.max()).saturating_sub(major_non_flex);\n    let mut major_flex = 0;\n    if major_remain > 0 && flex_total > 0.0 {", "    let mut left = direction.major(ct.max()).saturating_sub(major_non_flex);\n    let mut major_flex = 0;\n    if left > 0 && weights > 0.0 {"),
+               ("src/view/flex.rs", "                let child_major_max = ((major_remain as f64) * flex / flex_total).round() as usize;\n                flex_total -= flex;", "                let child_major_max = ((left as f64) * flex / weights).round() as usize;\n                weights -= flex;"),
+               ("src/view/flex.rs", "                    major_remain -= child_major;", "                    left -= child_major;")]},
+    # size_cells guard: positive form, is_empty spelled per component
+    {"id": "C10-benign-size-cells-guard-positive", "prop": "C10", "benign": True,
+     "edits": [("src/image.rs", "        if pixels_per_cell.is_empty() || self.size().is_empty() {\n            return Size::new(0, 0);\n        }\n        fn round_up(a: usize, b: usize) -> usize {\n            let c = a / b;\n            if a % b == 0 { c } else { c + 1 }\n        }\n        Size {\n            height: round_up(self.height(), pixels_per_cell.height),\n            width: round_up(self.width(), pixels_per_cell.width),\n        }",
+                "        fn round_up(a: usize, b: usize) -> usize {\n            let c = a / b;\n            if a % b == 0 { c } else { c + 1 }\n        }\n        if !pixels_per_cell.is_empty() && !self.size().is_empty() {\n            Size {\n                height: round_up(self.height(), pixels_per_cell.height),\n                width: round_up(self.width(), pixels_per_cell.width),\n            }\n        } else {\n            Size::new(0, 0)\n        }")]},
+    {"id": "C10-benign-is-empty-per-component", "prop": "C10", "benign": True,
+     "edits": [("src/terminal.rs", "        self.height * self.width == 0\n", "        0 == self.width || self.height == 0\n")]},
+    {"id": "C10-is-empty-and", "prop": "C10", "expect": "DIV-GUARD",
+     "edits": [("src/terminal.rs", "        self.height * self.width == 0\n", "        self.width == 0 && self.height == 0\n")]},
+    # hit test: containment predicate extracted into a private helper
+    {"id": "C10-hit-benign-contains-helper", "prop": "C10", "benign": True,
+     "edits": [(L, _FIND, "            if layout_contains(child, self.pos) {"),
+               (L, "impl<'a> Iterator for FindPath<'a> {", "fn layout_contains(layout: &Layout, pos: Position) -> bool {\n    layout.pos.col <= pos.col\n        && pos.col < layout.pos.col + layout.size.width\n        && layout.pos.row <= pos.row\n        && pos.row < layout.pos.row + layout.size.height\n}\n\nimpl<'a> Iterator for FindPath<'a> {")]},
+    {"id": "C10-hit-contains-helper-inclusive", "prop": "C10", "expect": "HIT-TEST",
+     "edits": [(L, _FIND, "            if layout_contains(child, self.pos) {"),
+               (L, "impl<'a> Iterator for FindPath<'a> {", "fn layout_contains(layout: &Layout, pos: Position) -> bool {\n    layout.pos.col <= pos.col\n        && pos.col <= layout.pos.col + layout.size.width\n        && layout.pos.row <= pos.row\n        && pos.row < layout.pos.row + layout.size.height\n}\n\nimpl<'a> Iterator for FindPath<'a> {")]},
+    # hit test: early `continue` instead of one conjunction
+    {"id": "C10-hit-benign-negated-continue", "prop": "C10", "benign": True,
+     "edits": [(L, _FIND + "\n                self.pos = Position {\n                    row: self.pos.row - child.pos.row,\n                    col: self.pos.col - child.pos.col,\n                };\n                self.current.replace(child_id);\n                break;\n            }\n            child_id_opt = self.store[child_id.0].sibling;",
+                "            let outside = self.pos.col < child.pos.col\n                || self.pos.col >= child.pos.col + child.size.width\n                || self.pos.row < child.pos.row\n                || self.pos.row >= child.pos.row + child.size.height;\n            if outside {\n                child_id_opt = self.store[child_id.0].sibling;\n                continue;\n            }\n            self.pos = Position {\n                row: self.pos.row - child.pos.row,\n                col: self.pos.col - child.pos.col,\n            };\n            self.current.replace(child_id);\n            break;")]},
+]
+
+MUTANTS += [
+    # renderer hands its surface to a private helper that applies the layout
+    {"id": "C10-benign-render-fill-helper", "prop": "C10", "benign": True,
+     "edits": [("src/view/mod.rs", "        let cell = Cell::new_char(Face::new(None, Some(*self), FaceAttrs::default()), ' ');\n        layout.apply_to(surf).fill(cell);", "        let cell = Cell::new_char(Face::new(None, Some(*self), FaceAttrs::default()), ' ');\n        fill_layout(surf, layout, cell);"),
+               ("src/view/mod.rs", "impl View for RGBA {", "fn fill_layout(surf: TerminalSurface<'_>, layout: ViewLayout<'_>, cell: Cell) {\n    layout.apply_to(surf).fill(cell);\n}\n\nimpl View for RGBA {")]},
+    {"id": "C10-render-fill-helper-no-apply", "prop": "C10", "expect": "CONTAINMENT",
+     "edits": [("src/view/mod.rs", "        let cell = Cell::new_char(Face::new(None, Some(*self), FaceAttrs::default()), ' ');\n        layout.apply_to(surf).fill(cell);", "        let cell = Cell::new_char(Face::new(None, Some(*self), FaceAttrs::default()), ' ');\n        fill_layout(surf, layout, cell);"),
+               ("src/view/mod.rs", "impl View for RGBA {", "fn fill_layout(mut surf: TerminalSurface<'_>, _layout: ViewLayout<'_>, cell: Cell) {\n    surf.fill(cell);\n}\n\nimpl View for RGBA {")]},
+    # the child's minimum size built by a private method
+    {"id": "C10-benign-container-child-min-helper", "prop": "C10", "benign": True,
+     "edits": [(C, "        let child_size_min = Size {\n            height: if self.align_vertical == Align::Expand {\n                child_size_max.height\n            } else {\n                0\n            },\n            width: if self.align_horizontal == Align::Expand {\n                child_size_max.width\n            } else {\n                0\n            },\n        };\n", "        let child_size_min = self.child_size_min(child_size_max);\n"),
+               (C, "impl<V: View> View for Container<V> {", "impl<V> Container<V> {\n    fn child_size_min(&self, max: Size) -> Size {\n        Size {\n            width: match self.align_horizontal {\n                Align::Expand => max.width,\n                _ => 0,\n            },\n            height: match self.align_vertical {\n                Align::Expand => max.height,\n                _ => 0,\n            },\n        }\n    }\n}\n\nimpl<V: View> View for Container<V> {")]},
+]
+
+_CS_FULL = "        let mut container_size = Size {\n" + _CS + "        };\n"
+_H = "if self.size.height == 0 {\n                ct.max().height\n            } else {\n                self.size.height.clamp(ct.min().height, ct.max().height)\n            }"
+_W = "if self.size.width == 0 {\n                ct.max().width\n            } else {\n                self.size.width.clamp(ct.min().width, ct.max().width)\n            }"
+MUTANTS += [
+    # Size::new(h, w) instead of the struct literal
+    {"id": "C10-benign-container-size-new", "prop": "C10", "benign": True,
+     "edits": [(C, _CS_FULL, "        let mut container_size = Size::new(\n            " + _H + ",\n            " + _W + ",\n        );\n")]},
+    {"id": "C10-container-size-new-swapped", "prop": "C10", "expect": "CLAMP-CONTRACT",
+     "edits": [(C, _CS_FULL, "        let mut container_size = Size::new(\n            " + _W + ",\n            " + _H + ",\n        );\n")]},
+]
+
+MUTANTS += [
+    {"id": "C10-hit-benign-debug-assert", "prop": "C10", "benign": True,
+     "edits": [(L, "            let child = &self.store[child_id.0].value;\n", "            debug_assert!(child_id.0 < self.store.len());\n            let child = &self.store[child_id.0].value;\n")]},
+]
